@@ -117,10 +117,77 @@ Proof.
   - exfalso. injection Hview as E1 E2 E3 E4 E5. lia.
 Qed.
 
-(** ** a stream of frames (C06) *)
+(** ** Marshal, then Unmarshal of the bytes written (followed by anything), for the
+    two concrete codecs: closed, no assumption on the codec left *)
 Definition msg_wf (m : option (list Z) * list Z) : Prop :=
   msg_ok m = true /\ bytes_ok (ver_of (fst m)) /\ bytes_ok (snd m) /\ zlen (snd m) < 2 ^ 62.
 
+Lemma msg_wf_ver m : msg_wf m -> zlen (ver_of (fst m)) <= 16 /\ no_trailing_nul (ver_of (fst m)) = true.
+Proof.
+  intros (Hok & _). unfold msg_ok in Hok. apply andb_prop in Hok. destruct Hok as [H1 H2].
+  apply Z.leb_le in H1. auto.
+Qed.
+
+Lemma k_enc_len kind p : zlen p < 2 ^ 62 -> zlen (k_enc kind p) < 2 ^ 63 - 32.
+Proof.
+  intros Hp. unfold k_enc. destruct (kind =? 1); [|unfold raw_enc; lia].
+  destruct p as [|x p]; [cbn; lia|]. unfold bv_enc. cbv beta iota.
+  rewrite zlen_cons, zlen_app.
+  assert (H : forall n v, zlen (put_varint n v) <= Z.of_nat n).
+  { induction n as [|n IH]; intros v; cbn [put_varint]; [cbn; lia|].
+    destruct (v <? 128); [rewrite zlen_cons, zlen_nil; lia|].
+    rewrite zlen_cons. specialize (IH (v / 128)). lia. }
+  specialize (H 10%nat (zlen (x :: p))). change (Z.of_nat 10) with 10 in H.
+  pose proof (zlen_cons x p). lia.
+Qed.
+
+Theorem c_Unmarshal_frame_gen kind m tail cs t :
+  kind = 0 \/ kind = 1 ->
+  msg_wf m -> bytes_ok tail -> chunks_ok cs ->
+  concat cs = frame_of (k_enc kind) m ++ tail -> zlen (concat cs) < 2 ^ 63 ->
+  term_ok t (k_enc kind (snd m)) tail ->
+  exists cs',
+    c_Unmarshal kind (cs, t)
+      = Some (zlen (frame_of (k_enc kind) m), ver_of (fst m), None, Some (snd m), (cs', t))
+    /\ concat cs' = tail /\ chunks_ok cs'.
+Proof.
+  intros Hkind Hm Bt Hok Hcs Hlen Hterm. destruct (msg_wf_ver m Hm) as [Hv Hnul].
+  destruct Hm as (Hmok & Bv & Bp & Hp).
+  unfold c_Unmarshal.
+  destruct (Unmarshal_frame (list Z) (k_enc kind) (k_dec kind) grow_default grow_default_ok
+              (snd m) (ver_of (fst m)) tail cs t (rd_fuel (cs, t))) as (cs' & HU & Hc' & Hok');
+    try assumption.
+  - apply k_dec_enc; [exact Hkind|lia].
+  - apply k_enc_bytes, Bp.
+  - unfold rd_fuel, rd_bytes. cbn [fst]. lia.
+  - exists cs'. rewrite HU. unfold frame_of. rewrite zlen_frame by assumption. auto.
+Qed.
+
+Theorem marshal_then_unmarshal kind m :
+  kind = 0 \/ kind = 1 -> msg_wf m ->
+  let wire := frame_of (k_enc kind) m in
+  s_Marshal kind [] (snd m) (fst m) = Some (zlen wire, None, ([], wire))
+  /\ zlen wire = SizeOf (k_size kind) (snd m)
+  /\ zlen wire = HeaderSizeOf (snd m) + zlen (k_enc kind (snd m))
+  /\ forall cs tail t,
+       bytes_ok tail -> chunks_ok cs -> concat cs = wire ++ tail -> zlen (concat cs) < 2 ^ 63 ->
+       term_ok t (k_enc kind (snd m)) tail ->
+       exists cs',
+         c_Unmarshal kind (cs, t) = Some (zlen wire, ver_of (fst m), None, Some (snd m), (cs', t))
+         /\ concat cs' = tail /\ chunks_ok cs'.
+Proof.
+  intros Hkind Hm wire. destruct (msg_wf_ver m Hm) as [Hv Hnul].
+  pose proof Hm as (_ & _ & _ & Hp).
+  destruct (Marshal_ok (list Z) (k_enc kind) (k_size kind) (snd m) (fst m) Hv (k_enc_len kind _ Hp)
+              (k_size_enc kind _)) as (HM & Hz & Hsz & Hhs).
+  unfold wire, frame_of. rewrite Hz.
+  split; [exact HM|]. split; [symmetry; exact Hsz|]. split; [rewrite Hhs; reflexivity|].
+  intros cs tail t Bt Hok Hcs Hlen Hterm.
+  destruct (c_Unmarshal_frame_gen kind m tail cs t Hkind Hm Bt Hok Hcs Hlen Hterm) as (cs' & HU & H).
+  exists cs'. unfold frame_of in HU. rewrite Hz in HU. auto.
+Qed.
+
+(** ** a stream of frames (C06) *)
 Section Stream.
   Variable kind : Z.
   Hypothesis Hkind : kind = 0 \/ kind = 1.
@@ -128,12 +195,6 @@ Section Stream.
   Hypothesis Ht : t_err t = EEOF.
 
   Let enc := k_enc kind.
-
-  Lemma msg_wf_ver m : msg_wf m -> zlen (ver_of (fst m)) <= 16 /\ no_trailing_nul (ver_of (fst m)) = true.
-  Proof.
-    intros (Hok & _). unfold msg_ok in Hok. apply andb_prop in Hok. destruct Hok as [H1 H2].
-    apply Z.leb_le in H1. auto.
-  Qed.
 
   Lemma zlen_frame_of m : msg_wf m -> zlen (frame_of enc m) = 32 + zlen (enc (snd m)).
   Proof. intros Hm. unfold frame_of. apply zlen_frame. apply (msg_wf_ver m Hm). Qed.
